@@ -2,5 +2,6 @@ pub mod c05;
 pub mod c08;
 pub mod c10;
 pub mod c11;
+pub mod c12;
 pub mod c13;
 pub mod c18;
